@@ -89,6 +89,9 @@ func c03Build(rt *rapid.T, s *stdSvc, cell c03Cell, g stdIngress) *AMsg {
 		}
 	case 1:
 		toHost = lab + []string{".wudp.test", ".wtcp.test", ".wtls.test"}[cell.Trans]
+		if cell.Trans == 0 && rapid.IntRange(0, 3).Draw(rt, "ipv4 to host") == 0 {
+			toHost = fmt.Sprintf("10.20.%d.%d", rapid.IntRange(0, 255).Draw(rt, "o3"), rapid.IntRange(1, 254).Draw(rt, "o4"))
+		}
 	default:
 		toHost = rapid.SampledFrom([]string{"nomatch.example", "static-udp.tes", "xstatic-udp.test", "wudp.test", "staticXudp.test"}).Draw(rt, "tohost")
 	}
